@@ -265,6 +265,28 @@ def fromString (isUrl : Str → Bool) (intOracle : Str → IntResult) (uri : Str
         | .ok m => .ok m
         | .error e => .err e
 
+/-- the number `parse_qsl` compares with `max_num_fields`: `1 + qs.count('&') if qs else 0` -/
+def numFields (qs : Str) : Nat := if qs.isEmpty then 0 else 1 + qs.count '&'
+
+/-- A variant that is *not* the code (seeded change C13-6a): `from_string` calls
+    `parse_qs(query, max_num_fields=limit)` and turns the ValueError ("Max number of fields
+    exceeded") into MagnetError.  The code passes no limit: `limit = none` is `fromString`
+    (`C13_no_field_limit`).  The renderer has no limit on the number of trackers, webseeds or
+    keywords a magnet may hold. -/
+def fromStringMax (limit : Option Nat) (isUrl : Str → Bool) (intOracle : Str → IntResult)
+    (uri : Str) : ParseResult :=
+  match urlparseMagnet (pyStrip uri) with
+  | none => .notModelled
+  | some (scheme, query) =>
+    if scheme ≠ ['m', 'a', 'g', 'n', 'e', 't'] then .err .magnet
+    else if (match limit with | some n => decide (n < numFields query) | none => false) then .err .magnet
+    else match parseQsl query with
+      | none => .notModelled
+      | some pairs =>
+        match fromPairs isUrl intOracle pairs with
+        | .ok m => .ok m
+        | .error e => .err e
+
 /-! ## torrent ↔ magnet -/
 
 /-- what C13 compares of a torrent -/
